@@ -576,7 +576,7 @@ class Recon:
             return S.op("floordiv" if path[0] == 0 else "mod", a, b)
         base = self._e(ctx, v, d.node, binds, False, depth + 1)
         for i in path:
-            if base[0] == "tuple" and isinstance(i, int) and i < len(base[1]):
+            if base[0] in ("tuple", "list") and isinstance(i, int) and i < len(base[1]):
                 base = base[1][i]
             else:
                 base = ("sub", base, S.C(i))
